@@ -23,7 +23,12 @@ Init == \/ /\ prop = "C05" /\ n \in 1..MaxN /\ bounded \in BOOLEAN
            /\ mclass \in {"under", "square", "over"} /\ x0class \in {"interior", "onbound", "infeasible"}
            /\ scaling \in (IF bounded THEN BOOLEAN ELSE {FALSE}) /\ nptclass \in {"n+1", "mid", "2n+1"} /\ cond \in {1, 10, 100, 1000}
            /\ reg = "none" /\ args = FALSE
-           /\ special \in (IF scaling THEN {"none", "narrow_box"} ELSE {"none"})   \* box sides shorter than 2*0.1: only valid with internal scaling
+           \* special: narrow_box - box sides shorter than 2*0.1 (only valid with internal scaling);
+           \*          solution_on_init_grid - consistent data whose solution is one of the initial coordinate points (the run ends while the set is built);
+           \*          tiny_sensitivities - |A| ~ 1e-8 with the solution ~ 1e6 away from the start (well conditioned, badly scaled: model gradients ~ 1e-10)
+           /\ special \in {"none"} \cup (IF scaling THEN {"narrow_box"} ELSE {})
+                                   \cup (IF ~scaling /\ mclass # "under" /\ x0class = "interior" /\ \A i \in 1..n : status[i] = "free" THEN {"solution_on_init_grid"} ELSE {})
+                                   \cup (IF ~scaling /\ mclass # "under" /\ x0class = "interior" THEN {"tiny_sensitivities"} ELSE {})
            /\ (mclass = "under" => n >= 2)
            /\ (~bounded => x0class = "interior")
         \/ /\ prop = "C06" /\ n \in 1..MaxN /\ bounded \in BOOLEAN /\ reg \in {"l1", "l2"}
@@ -34,7 +39,9 @@ Init == \/ /\ prop = "C05" /\ n \in 1..MaxN /\ bounded \in BOOLEAN
            /\ args \in BOOLEAN
            \* special: the data are consistent with a point of the initial coordinate grid (zero residual there, regulariser not small): the
            \* 'objective is sufficiently small' test must include the regulariser
-           /\ special \in (IF reg = "l1" /\ ~bounded /\ \A i \in 1..n : status[i] = "pos" THEN {"none", "zero_residual_on_init_grid"} ELSE {"none"})
+           \* special: hard restarts with extra arguments for h and for the proximal operator (every run of the restart loop must hand them on)
+           /\ special \in {"none"} \cup (IF reg = "l1" /\ ~bounded /\ \A i \in 1..n : status[i] = "pos" THEN {"zero_residual_on_init_grid"} ELSE {})
+                                   \cup (IF args THEN {"hard_restarts"} ELSE {})
 Next == UNCHANGED vars
 Spec == Init /\ [][Next]_vars
 Emit == PrintT("PROBLEM" \o ToJson([prop |-> prop, n |-> n, status |-> status, mclass |-> mclass, x0class |-> x0class, scaling |-> scaling,
